@@ -1063,6 +1063,8 @@ char * SCPI_dtostre(double __val, char * __s, size_t __ssize, unsigned char __pr
         memmove(s + decpt + 1, s, __prec + 1);
         memset(s, '0', decpt + 1);
         s[1] = '.';
+        /* digits were shifted behind the leading zeros, last digit is at s[__prec + decpt] */
+        s += decpt;
         decpt = 0;
     } else {
         memmove(s + 2, s + 1, __prec + 1);
